@@ -302,7 +302,11 @@ impl PeerHandler {
             }
             BroadCmd::SendOwnState { am_choked_map } => {
                 match am_choked_map.get(&self.connection.addr) {
-                    Some(true) => self.connection.send_msg(&Choke::new()).await?,
+                    Some(true) => {
+                        // Piece loaded for this peer must not be served any more without asking the manager
+                        self.piece_tx = None;
+                        self.connection.send_msg(&Choke::new()).await?
+                    }
                     Some(false) => self.connection.send_msg(&Unchoke::new()).await?,
                     None => (),
                 }
